@@ -12,16 +12,19 @@ MANIFEST = {
             "a subscription by one with a new token changes no reference count (reregistration_keeps_refcount), a Reset that cancels one "
             "observation under its temporary reference drops exactly one reference (rst_releases_exactly_one) —, exactly one session-new and at "
             "most one session-deleted event per session (one_new_one_del_per_session), the oldest idle session is evicted at the idle limit "
-            "(oldest_idle_evicted_at_limit), after coap_free_context at any point the ledger is empty (teardown_ledger_empty, "
+            "(oldest_idle_evicted_at_limit), a whole I/O pass coap_io_prepare_io(ctx, now) — notifications, delayed async responses whose "
+            "handler takes time so that the clock and last_rx_tx run ahead of the pass's now, retransmissions, the reclamation walk — leaves "
+            "no unreferenced idle session with last_rx_tx + session_timeout <= now (idle_reclaimed_after_timeout) and deletes ONLY such "
+            "sessions, for any now argument (reclaimed_only_after_timeout, session_used_after_now_survives), after coap_free_context at any point the ledger is empty (teardown_ledger_empty, "
             "ledger_never_bad); a Lean-verified monitor ledgerOk (ledgerOk_iff) judges the REAL allocation trace recorded through wrapped "
             "coap_malloc_type/free_type.  M is tied to the compiled code by exact trace equality (session->ref, last_rx_tx and the "
             "notifications each peer received, after EVERY event) on generated histories from 1..50 peers on a real server context with "
             "virtual clock and scripted network; the property is also read off the implementation's own output (among others: the "
             "reference counts of all live sessions add up to the number of subscriptions + queued messages + async entries + application "
-            "references that exist).",
+            "references that exist; a session-deleted event outside teardown is either the eviction of the oldest idle session at the "
+            "idle limit or comes from an I/O pass whose now is >= the session's last_rx_tx + session_timeout).",
     "note": "Partial: 'nothing used after release' and leaks of objects not allocated through coap_malloc_type are ASan/LSan observations on "
-            "the histories run; idle_reclaimed_after_timeout is proved for one step of the reclamation loop (_partial) and checked on every "
-            "I/O pass by the oracle.  UDP endpoints only in the differential runs (D9); notifications are NON (both observable resources "
+            "the histories run.  UDP endpoints only in the differential runs (D9); notifications are NON (both observable resources "
             "are NOTIFY_NON_ALWAYS), confirmable notifications are outside the generated alphabet.  Trusted: Lean kernel (+ propext, Classical.choice, "
             "Quot.sound), harness + allocator wrap + oracle, the hand transcription M (checked on the histories run).",
     "design_ref": "DESIGN.md §4 C12, design/C12.md",
@@ -29,7 +32,8 @@ MANIFEST = {
 LEAN_MODULES = ["CoapVerif.Props.C12"]
 NAMESPACE = "Coap.C12"
 REQUIRED_THEOREMS = ["peer_session_functional_injective", "one_new_one_del_per_session", "ref_eq_holders",
-                     "no_free_while_referenced", "reregistration_keeps_refcount", "rst_releases_exactly_one", "idle_reclaimed_after_timeout_partial", "oldest_idle_evicted_at_limit",
+                     "no_free_while_referenced", "reregistration_keeps_refcount", "rst_releases_exactly_one", "idle_reclaimed_after_timeout", "reclaimed_only_after_timeout",
+                     "session_used_after_now_survives", "oldest_idle_evicted_at_limit",
                      "teardown_ledger_empty", "ledger_never_bad", "ledgerOk_iff", "same_peer_same_session"]
 RULE = ("one line = one whole history on a fresh real server context with two UDP endpoints: requests from 1..50 peers "
         "(peers P and P+25 share the remote address/port and differ in the local port only; groups share the remote IP or the "
@@ -37,7 +41,9 @@ RULE = ("one line = one whole history on a fresh real server context with two UD
         "variants: another cache key), including re-registration of the same resource/query under a NEW token and Observe:1 with "
         "a known / unknown token, 'resource changed' (coap_resource_notify_observers) with the NON notifications sent in the next "
         "I/O pass, peer RST / empty ACK for the k-th last notification it received on its session (fresh and stale ids), async "
-        "registration/free, server CON (ping) in the send queue answered by RST or retransmitted to exhaustion, application "
+        "registration/free, delayed (async) NON responses whose handler takes 0 ms .. twice the session timeout when libcoap re-invokes "
+        "it from coap_check_async inside an I/O pass (the clock moves on during the pass), I/O passes given a `now` read 0 ms .. "
+        "more than the session timeout earlier, server CON (ping) in the send queue answered by RST or retransmitted to exhaustion, application "
         "reference/release, session disconnect, resource deletion (also while dirty), max_idle_sessions / session_timeout settings, virtual-time jumps on both sides of every timeout "
         "(retransmission deadlines, session_timeout-1/0/+1), I/O steps, context teardown at any point (always at the end); "
         "non-trivial = distinct history that created at least one session and has at least 4 events")
@@ -97,9 +103,35 @@ def gen_history(rng, big=False):
         q = (0 if rng.random() < 0.8 else 1) if q is None else q
         return "%s%d.%d" % (kind, p, k) + (".%d.%d" % (v, q) if q else ".%d" % v if v else "")
 
+    def dur():
+        """time a handler takes (ms): nothing, a little, about a retransmission interval, around the session timeout"""
+        t = timeout * 1000
+        return rng.choice([0, 0, 1, 1, 2, 5, 40, 250, 1000, 2000, 2001, max(1, t - 1), t, t + 1, 2 * t])
+
     base = len(toks)
     while len(toks) - base < n:
         p = rng.choice(hot) if rng.random() < 0.5 else rng.choice(pool)
+        c0 = rng.random()
+        if c0 < 0.035:
+            # a delayed response: the request is parked (async entry with a delay), the delay passes, an I/O pass (an
+            # explicit one or the one that ends any datagram event) re-invokes the handler, which takes some time
+            d = rng.choice([0, 1, 1, 2, 5, 40, 40, 100, 999, 1000, 2000, 4000, timeout * 1000])
+            toks.append("b%d.%d.%d" % (p, d, dur()))
+            r = rng.random()
+            if r < 0.75 and d:
+                if rng.random() < 0.3: toks.append(rng.choice(["r%d", "b%d.7.3", "+%d", "q%d", "o%d.0"]) % rng.choice(pool))
+                toks.append("T%d" % rng.choice([d, d, d + 1, d + 1000, max(1, d - 1), 2 * d]))
+                toks.append(rng.choice(["i", "i", "i", "I1", "r%d" % rng.choice(pool), "r%d" % p, "b%d.1.1" % rng.choice(pool)]))
+                if rng.random() < 0.5: toks.append(rng.choice(["i", "r%d" % p, "T1", "T%d" % (timeout * 1000), "I2"]))
+            continue
+        if c0 < 0.055:
+            # an I/O pass whose `now` the application read a little earlier (before the last datagrams were handled)
+            x = rng.choice([1, 2, 5, 100, 1000, 2000, timeout * 1000, timeout * 1000 + 1])
+            if rng.random() < 0.7:
+                toks.append("T%d" % x)
+                toks.append(rng.choice(["r%d", "r%d", "o%d.0", "a%d", "q%d"]) % p)
+            toks.append("I%d" % rng.choice([0, 1, x, x, max(1, x - 1), x + 1, 2 * x, 9999999]))
+            continue
         c = rng.random()
         if c < 0.19: toks.append("r%d" % p)
         elif c < 0.28: toks.append(obs("o", p))
@@ -148,7 +180,7 @@ def generate(ctx, escalate=False):
 
 # ------------------------------------------------------------------ reading a canonical line
 def split_line(s):
-    """-> (segments [(token, outcome, events [str], refs {idx: (ref, last)} | None, idle (i0, i1), live (s, o, n))], fields {ledger, lsan})"""
+    """-> (segments [(token, outcome, events [str], refs {idx: (ref, last)} | None, idle (i0, i1), live (s, o, n, a, app), clock)], fields {ledger, lsan})"""
     parts = s.split(" | ")
     fields = {}
     for p in parts[1:]:
@@ -157,9 +189,9 @@ def split_line(s):
     segs = []
     for seg in parts[0].split(" ; "):
         w = seg.split()
-        if len(w) != 6:
+        if len(w) != 7 or not w[6].startswith("C"):
             raise ValueError("bad segment %r" % seg)
-        tok, outcome, E, R, I, L = w
+        tok, outcome, E, R, I, L, Ck = w
         evs = [] if E == "E-" else E[1:].split(",")
         refs = None
         if R != "R-":
@@ -169,7 +201,8 @@ def split_line(s):
                 a, _, b = rest.partition("@")
                 refs[i] = (int(a), int(b.partition("#")[0]))
         i0, i1 = I[1:].split("/")
-        segs.append((tok, outcome, evs, refs if refs is not None else {}, (int(i0), int(i1)), tuple(int(x) for x in L[1:].split("/"))))
+        segs.append((tok, outcome, evs, refs if refs is not None else {}, (int(i0), int(i1)), tuple(int(x) for x in L[1:].split("/")),
+                     int(Ck[1:])))
     return segs, fields
 
 
@@ -195,16 +228,26 @@ def oracle(inp, impl):
     owner = {}           # peer -> idx   (live sessions)
     seen_new, seen_del = set(), set()
     prev_refs, prev_live = {}, {}
+    active = {}          # idx -> arrival time of the last datagram the harness saw this session handle (a lower bound of last_rx_tx
+                         # that does not depend on what the implementation wrote there)
     nxt = 0
-    for k, (tok, outcome, evs, refs, idle, lv) in enumerate(segs):
+    for k, (tok, outcome, evs, refs, idle, lv, clock) in enumerate(segs):
         c = tok[0]
         final = c == "F"
         if c == "T": now += int(tok[1:])
         elif c == "s": timeout = int(tok[1:]) or 300
         elif c == "m": max_idle = int(tok[1:])
-        creator = peer_of(tok) if c in "rodakty" else None
+        # `now` = the clock when the event starts = the `now` argument of the I/O pass the event runs (no handler takes time
+        # before the pass of a datagram event starts); `I<d>` hands the pass an older one.  Inside the pass the clock may move on
+        # (the handler of a delayed response takes time): the harness prints the clock after every event
+        pass_now = max(0, now - int(tok[1:])) if c == "I" else now
+        runs_pass = c in "irodaktybI" and not outcome.startswith("skip")
+        creator = peer_of(tok) if c in "rodaktyb" else None
         # events: exactly one NEW and one DEL per session, in a sensible order
         dels_here = []
+        # the datagram is handled before the I/O pass that ends the event: the peer's session AT THAT MOMENT is the one after
+        # the creation (if the event creates one), else the one before any deletion by the pass
+        owner_then = None if any(e.startswith("N") for e in evs) else dict(owner)
         for e in evs:
             kind, idx = e[0], e[1:]
             if idx.endswith("!appref"):
@@ -224,6 +267,7 @@ def oracle(inp, impl):
                     return "peer %d already has the live session %s but session %s was created for it (event %d, %s)" % (
                         creator, owner[creator], idx, k, tok)
                 owner[creator] = idx; live[idx] = creator
+                if owner_then is None: owner_then = dict(owner)
             elif kind == "D":
                 if idx == "?" or idx not in seen_new or idx in seen_del:
                     return "session-deleted event for %s without exactly one earlier session-new (event %d, %s)" % (idx, k, tok)
@@ -235,9 +279,9 @@ def oracle(inp, impl):
             h = outcome[1:]
             if creator is None or h == "?":
                 return "datagram handled by an unknown session (event %d, %s)" % (k, tok)
-            if owner.get(creator) != h:
+            if (owner_then or {}).get(creator) != h:
                 return "datagram from peer %d handled by session %s, its session is %s (event %d, %s)" % (
-                    creator, h, owner.get(creator), k, tok)
+                    creator, h, (owner_then or {}).get(creator), k, tok)
         # the live table is what the events say
         if not final and set(refs) != set(live):
             return "live sessions %s do not match the session-new/deleted events %s (event %d, %s)" % (
@@ -249,23 +293,50 @@ def oracle(inp, impl):
                     "entries + %d application references = %d holders exist (event %d, %s)" % (
                         sum(r for r, _ in refs.values()), lv[1], lv[2], lv[3], lv[4], sum(lv[1:]), k, tok))
         # eviction at the idle limit: the oldest idle session of that endpoint goes
-        if creator is not None and any(e.startswith("N") for e in evs) and max_idle > 0:
+        evicted = []
+        if creator is not None and any(e.startswith("N") for e in evs):
             ep = creator // 25
             idle_before = [(i, prev_refs[i][1]) for i in prev_refs if prev_refs[i][0] == 0 and prev_live.get(i, -1) // 25 == ep]
-            if len(idle_before) >= max_idle:
+            pre = evs[: next(j for j, e in enumerate(evs) if e.startswith("N"))]        # deletions BEFORE the creation
+            victims = [strip_marks(e[1:]) for e in pre if e.startswith("D")]
+            if max_idle > 0 and len(idle_before) >= max_idle:
                 oldest = min(l for _, l in idle_before)
-                pre = evs[: next(j for j, e in enumerate(evs) if e.startswith("N"))]        # deletions BEFORE the creation
-                victims = [strip_marks(e[1:]) for e in pre if e.startswith("D")]
                 if len(victims) != 1 or prev_refs[victims[0]][0] != 0 or prev_refs[victims[0]][1] != oldest or \
                         prev_live.get(victims[0], -1) // 25 != ep:
                     return "idle limit %d reached (%d idle) but the oldest idle session was not the one evicted: deleted %s (event %d, %s)" % (
                         max_idle, len(idle_before), victims, k, tok)
+            elif victims:
+                return "session(s) %s deleted to make room for a new one although the idle limit (%d) was not reached (%d idle) (event %d, %s)" % (
+                    victims, max_idle, len(idle_before), k, tok)
+            evicted = victims
+        if outcome.startswith("h"):
+            active[outcome[1:]] = now
+        # reclamation ONLY after the session timeout: apart from the eviction above and the teardown, a session is deleted
+        # only by the idle reclamation of an I/O pass, and only if `last_rx_tx + session_timeout <= now` for the `now` the pass
+        # was given.  last_rx_tx never decreases, so the value printed BEFORE the event is a lower bound of the one tested, and so
+        # is the arrival time of the last datagram the session handled (also the one of this very event).
+        if not final:
+            for idx in dels_here:
+                if idx in evicted:
+                    continue
+                if not runs_pass:
+                    return "session %s deleted by an event that neither evicts, nor runs an I/O pass, nor frees the context (event %d, %s)" % (idx, k, tok)
+                if idx not in prev_refs:
+                    return "session %s created and deleted by the same event (event %d, %s)" % (idx, k, tok)
+                last = max(prev_refs[idx][1], active.get(idx, 0))
+                if last + timeout * 1000 > pass_now:
+                    return ("session %s reclaimed before its session timeout: last_rx_tx >= %d, timeout %ds, but the I/O pass ran with now = %d "
+                            "(clock afterwards %d) (event %d, %s)" % (idx, last, timeout, pass_now, clock, k, tok))
         # reclamation: after an I/O pass no unreferenced session is older than the timeout
-        if c in "irodakty" and not outcome.startswith("skip"):
+        if runs_pass:
             for i, (ref, last) in refs.items():
-                if ref == 0 and last + timeout * 1000 <= now:
-                    return "session %s idle since %d still alive at %d after an I/O pass (timeout %ds) (event %d, %s)" % (
-                        i, last, now, timeout, k, tok)
+                if ref == 0 and last + timeout * 1000 <= pass_now:
+                    return "session %s idle since %d still alive after an I/O pass with now = %d (timeout %ds) (event %d, %s)" % (
+                        i, last, pass_now, timeout, k, tok)
+        # the clock never runs backwards, and only a pass (a handler inside it) or `T` moves it
+        if clock < now or (clock != now and not runs_pass):
+            return "virtual clock %d after the event, %d before (event %d, %s)" % (clock, now, k, tok)
+        now = clock
         if final:
             if seen_new != seen_del:
                 return "after coap_free_context sessions %s never got a session-deleted event" % sorted(seen_new - seen_del)
@@ -335,7 +406,7 @@ def nontrivial(c):
 
 def classify(c):
     n = len(c["input"].split()) - 1
-    peers = {t[1:].split(".")[0] for t in c["input"].split()[1:] if t[0] in "rodafqk+-xty"}
+    peers = {t[1:].split(".")[0] for t in c["input"].split()[1:] if t[0] in "rodafqk+-xtyb"}
     return "ev<=%d peers<=%d" % (next(b for b in (8, 20, 45, 80, 10 ** 6) if n <= b), next(b for b in (1, 3, 8, 20, 50) if len(peers) <= b))
 
 
@@ -351,7 +422,7 @@ def search(ctx, tie_breaks, proof):
             r = rng.random()
             if r < 0.4 and len(t) > 1: del t[k]
             elif r < 0.7 and t: t.insert(k, rng.choice(t))
-            else: t.insert(k, rng.choice(["i", "T1000", "T2000", "T300000", "F"]))
+            else: t.insert(k, rng.choice(["i", "T1000", "T2000", "T300000", "F", "I1", "T1"]))
             out.append("sess " + " ".join(t))
     out += [gen_history(rng, big=rng.random() < 0.1) for _ in range(3000)]
     return out
